@@ -5,6 +5,7 @@ import FlVerif.Lemmas.Reject
 import FlVerif.Op.FunctionTerm
 import FlVerif.Lemmas.CodeFunction
 import FlVerif.Lemmas.CodeFunctionParse
+import FlVerif.Lemmas.FormatInfix
 
 /-! # C17 — Function formulas follow the documented precedence and associativity
 
@@ -45,6 +46,52 @@ theorem precedence_table :
     (∀ o ∈ ["^", "**", "*", "/", "%", "+", "-", "and", "or"], t.arity o = 2) ∧
     (∀ f ∈ t.functions, t.prec "!" ≤ t.prec f) ∧
     t.arity "pi" = 0 := by
+  decide +kernel
+
+/-! ## `format_infix(...).split()`: spacing does not matter -/
+
+/-- the alternation of the regular expression of `format_infix`: the symbolic operators and the punctuation -/
+def opsOf (tbl : Table) : List (List Char) := (symbolOps tbl).map String.toList
+
+/-- **Spacing independence.**  `format_infix(text).split()` gives back the tokens of EVERY writing of a token list in
+    which each token is recognisable where it stands (`Op.Valid`): any number of blanks before each token and at the
+    end, none needed next to a symbolic operator, a parenthesis or a comma.  Any number of tokens. -/
+theorem format_split_render (tbl : Table) (ts : List (Nat × Tk)) (tr : Nat) (hsp : NoSpaceOp (opsOf tbl))
+    (hv : Valid (opsOf tbl) ts tr) :
+    formatInfix tbl (String.ofList (render ts tr)) = ts.map (fun p => p.2.str) := by
+  unfold formatInfix
+  rw [String.toList_ofList]
+  exact scan_render (opsOf tbl) hsp ts tr hv
+
+/-- the characters of names and numbers (letters, digits, underscore) -/
+def wordChar (c : Char) : Bool := c.isAlphanum || c == '_'
+
+/-- on the regenerated table: no symbolic operator begins with a blank … -/
+theorem table_noSpaceOp : NoSpaceOp (opsOf Gen.Tables.elements) :=
+  noSpaceOp_of_heads _ (by decide +kernel)
+
+/-- … nor with a letter, a digit or an underscore: no operator is recognised inside a name or an integer -/
+theorem table_wordChars (c : Char) (hc : wordChar c = true) (r : List Char) :
+    firstMatch (opsOf Gen.Tables.elements) (c :: r) = none := by
+  apply noMatch_of_heads
+  have h : ∀ o ∈ opsOf Gen.Tables.elements, ∀ a, o.head? = some a → wordChar a = false := by decide +kernel
+  intro o ho e
+  have := h o ho c e
+  rw [hc] at this; exact absurd this (by simp)
+
+/-- a word of such characters is valid wherever it stands -/
+theorem word_valid (w r : List Char) (hw : ∀ c ∈ w, wordChar c = true) :
+    NoMatchInside (opsOf Gen.Tables.elements) w r :=
+  noMatchInside_of_chars _ wordChar table_wordChars w r hw
+
+/-- the hypotheses are met by a writing with glued parentheses and operators: `sin( x+1 )*2` -/
+example : Valid (opsOf Gen.Tables.elements)
+    [(0, .word "sin".toList), (0, .sym "(".toList), (1, .word "x".toList), (0, .sym "+".toList), (0, .word "1".toList),
+     (1, .sym ")".toList), (0, .sym "*".toList), (0, .word "2".toList)] 0 := by
+  decide +kernel
+
+/-- … and this is what the scan returns for it -/
+example : formatInfix Gen.Tables.elements "sin( x+1 )*2" = ["sin", "(", "x", "+", "1", ")", "*", "2"] := by
   decide +kernel
 
 /-! ## Tie A (code → model) -/
@@ -115,6 +162,18 @@ theorem parse_print (tbl : Table) (hT : tbl.WellFormed) (e : Expr) (he : e.Over 
   unfold parseFormula
   rw [sy_correct tbl hT e he.toW ts hp]
   exact parsePostfix_postfix tbl e he
+
+/-- **From characters to the tree.**  For every expression tree `e`, every way `ts` to write it as tokens (minimal,
+    redundant or full parentheses: `Prints e ts`) and every way to lay these tokens out as characters (`ws`: any
+    blanks, none needed next to symbolic operators / parentheses / commas, `Valid`), `Function.parse` of the text is
+    `e`: `format_infix` + `split` recover the tokens (`format_split_render`), the shunting-yard loop and the stack
+    machine rebuild the tree (`parse_print`).  No bound on the size of the tree or of the text. -/
+theorem parse_any_layout (tbl : Table) (hT : tbl.WellFormed) (e : Expr) (he : e.Over tbl) (ts : List Tok)
+    (hp : Prints e ts) (ws : List (Nat × Tk)) (tr : Nat) (hts : ws.map (fun p => p.2.str) = ts.map Tok.str)
+    (hsp : NoSpaceOp (opsOf tbl)) (hv : Valid (opsOf tbl) ws tr) :
+    parseFormula tbl (formatInfix tbl (String.ofList (render ws tr))) = .ok e := by
+  rw [format_split_render tbl ws tr hsp hv, hts]
+  exact parse_print tbl hT e he ts hp
 
 /-- **Postfix round trip.**  The tree of a loaded formula prints to a postfix form from which the stack machine
     rebuilds the same tree, and – for any meaning of leaves and elements – the value of the tree is the value of that
